@@ -33,6 +33,7 @@ package content
 //@   exit set delivered(result.base) = 0
 //@   ensures [C05:wf-size-nonnegative] wf(result)
 //@   ensures [C05:remembers] descOf(result) == desc && srcOf(result) == r && !result.verified
+//@   ensures [fresh] !old(alive(result)) && alive(result)
 //@   modifies alloc, new VerifyReader.*, new io.LimitedReader.*, new ghost.descOf, new ghost.srcOf, new ghost.delivered, elems[any]
 //@
 //@ func (*VerifyReader).Read
